@@ -37,7 +37,7 @@ def bounds(tier):
 def goals(tier):
     return ["accepted-by-signature", "rejected-by-upstream-letter", "rejected-by-downstream-letter", "degenerate-signature-accepts",
             "degenerate-signature-rejects", "vector-part", "characterize-found", "characterize-runtimeerror", "characterize-concrete-root",
-            "characterize-several-candidates-accept", "other-kind-record", "signature-free-class-asked-first", "candidate-type-declared-after-first-use", "every-presentation-of-a-plasmid", "linear-record-accepted", "linear-record-rejected", "characterize-every-presentation"]
+            "characterize-several-candidates-accept", "other-kind-record", "signature-free-class-asked-first", "candidate-type-declared-after-first-use", "every-presentation-of-a-plasmid", "linear-record-accepted", "linear-record-rejected", "characterize-every-presentation", "linear-record-flush-with-the-structure", "boundary-length-record"]
 
 
 # ---------------------------------------------------------------------------------------------
@@ -78,6 +78,20 @@ def kit_words(cls):
 def record_for(enz, kind, up, down, variant=0):
     """generic record of `kind` with overhang_start=up, overhang_end=down; None if it cannot be built with exactly 2 sites"""
     g = gen.geometry_of(gen.enzyme(enz))
+    if variant in ("min", "min+1"):
+        # boundary lengths of the formal definition: module body of 2 (3) nt; vector backbone of 2 (3) nt and placeholder of 0 (1) nt
+        d = 0 if variant == "min" else 1
+        for attempt in range(10):
+            sh = attempt * 7
+            if kind == "module":
+                s = gen.mk_module(g, up, gen.word(0, 5 + sh, 2 + d, [g.site]), down, gen.word(1, 31 + sh, 4, [g.site]),
+                                  x=gen.word(0, 3 + sh, g.off, [g.site]), y=gen.word(0, 17 + sh, g.off, [g.site]))
+            else:
+                s = gen.mk_vector(g, up, down, gen.word(0, 61 + sh, 2 + d, [g.site]), gen.word(1, 47 + sh, d, [g.site]),
+                                  x=gen.word(0, 29 + sh, g.off, [g.site]), y=gen.word(0, 41 + sh, g.off, [g.site]))
+            if rm.count_sites(s, g) == 2:
+                return s
+        return None
     for attempt in range(10):
         sh = attempt * 7 + variant * 3
         if kind == "module":
@@ -125,9 +139,9 @@ def typed(cls, s, rec=None):
     return (True, str(e.overhang_start()), str(e.overhang_end()))
 
 
-def check_presentations(st, cls, sr, scn, pobs):
+def check_presentations(st, cls, sr, scn, pobs, linear_only=False):
     """the verdict (and the overhangs) of a plasmid cannot depend on the container it is handed over in"""
-    for pname, rec in gen.presentations(sr, "c5")[1:]:
+    for pname, rec in ([] if linear_only else gen.presentations(sr, "c5")[1:]):
         try:
             alt = typed(cls, sr, rec)
         except Exception as e:
@@ -138,10 +152,21 @@ def check_presentations(st, cls, sr, scn, pobs):
         st.goal("every-presentation-of-a-plasmid")
         if alt != pobs:
             st.violation("typing", "verdict-depends-on-how-the-plasmid-is-handed-over-" + pname, dict(scn, presentation=pname), pobs, alt)
-    # the same text declared linear: accepted exactly when the structure can be read without crossing the ends
-    lin = rm.Matcher(cls.structure()).search(sr, circular=False)
-    exp = pobs if (lin is not None and pobs[0] is True) else (False,)
+    # the same text declared linear: the statement itself (signature-free class accepts + overhangs match the signature), with the
+    # signature-free class answering on the very same linear record; and that answer against the reference matcher in linear mode
+    G = generic_for(cls)
+    upsig, downsig = cls.signature
+    lin = rm.Matcher(G.structure()).search(sr, circular=False)
     for pname, rec in gen.linear_presentations(sr, "c5"):
+        try:
+            galt = typed(G, sr, rec)
+        except Exception as e:
+            galt = ("raises", type(e).__name__, str(e)[:120])
+        if (galt[0] is True) != (lin is not None and pobs is not None and typed(G, sr)[0] is True):
+            st.violation("typing", "signature-free-class-reads-a-linear-record-across-its-ends-" + pname if galt[0] is True else "signature-free-class-verdict-on-linear-record-" + pname,
+                         dict(scn, presentation=pname), lin is not None, galt)
+            continue
+        exp = (True, galt[1], galt[2]) if (galt[0] is True and rm.iupac_match(upsig, galt[1]) and rm.iupac_match(downsig, galt[2])) else (False,)
         try:
             alt = typed(cls, sr, rec)
         except Exception as e:
@@ -154,13 +179,28 @@ def check_presentations(st, cls, sr, scn, pobs):
                          dict(scn, presentation=pname), exp, alt)
 
 
-def check_typing(st, cls, upsig, downsig, enz, kind, up, down, tier, scn_base, record_kind=None):
-    s = record_for(enz, record_kind or kind, up, down)
+def check_typing(st, cls, upsig, downsig, enz, kind, up, down, tier, scn_base, record_kind=None, size=None):
+    if size is None and record_kind is None:
+        # the same question on records of the boundary lengths of the definition (no presentations there)
+        for sz in ("min", "min+1"):
+            check_typing(st, cls, upsig, downsig, enz, kind, up, down, tier, dict({k_: v_ for k_, v_ in scn_base.items() if k_ != "presentations"}, size=sz), size=sz)
+            st.goal("boundary-length-record")
+    s = record_for(enz, record_kind or kind, up, down, variant=size or 0)
     if s is None:
         st.filtered += 1
         return
     G = generic_for(cls)
-    for r in rotations_for(s, enz, kind, tier):
+    rots = rotations_for(s, enz, kind, tier)
+    base_rots = set(rots)
+    if scn_base.get("presentations"):
+        # rotations at which a linear reading of the text begins or ends exactly with the structure, and one letter further out
+        m0 = rm.Matcher(G.structure()).search(s, True)
+        if m0 is not None:
+            n0 = len(s)
+            a0, b0 = m0["spans"][0]
+            rots = sorted(set(rots) | {(n0 - a0 + d) % n0 for d in (-1, 0, 1)} | {(n0 - b0 + d) % n0 for d in (-1, 0, 1)})
+            st.goal("linear-record-flush-with-the-structure")
+    for r in rots:
         sr = rm.rot_right(s, r)
         scn = dict(scn_base, up=up, down=down, rotation=r, seq=sr)
         try:
@@ -178,8 +218,8 @@ def check_typing(st, cls, upsig, downsig, enz, kind, up, down, tier, scn_base, r
             exp = False
             st.goal("generic-rejects")
         got = pobs[0] is True
-        if scn_base.get("presentations"):
-            check_presentations(st, cls, sr, scn, pobs)
+        if scn_base.get("presentations") and (r in base_rots or pobs[0] is True):
+            check_presentations(st, cls, sr, scn, pobs, linear_only=r not in base_rots)
         st.scenario("accept" if exp else "reject", None, calls=2)
         if gobs[0] is True:
             st.nontrivial += 1
